@@ -126,12 +126,10 @@ Definition chk_equery (table : list dict) (qy : equery) : bool :=
   | EError, None => true
   | EBest i cfg, Some cfg' =>
       match metric_name_mode names ms mref with
-      | Some (name, _) =>
-          (* tie-tolerant: some row holding the model's optimum value equals the returned row *)
-          let v := cell_of name (nth i table []) in
-          existsb (fun row => match cell_of name row, v with
-                              | CNum a, CNum b => num_eqb a b && dict_equiv (strip_st row) cfg'
-                              | _, _ => false end) table
+      | Some (name, m) =>
+          (* tie-tolerant: some row with the model's optimum (filled) value equals the returned row *)
+          let v := cell_fill m (cell_of name (nth i table [])) in
+          existsb (fun row => num_eqb (cell_fill m (cell_of name row)) v && dict_equiv (strip_st row) cfg') table
       | None => false
       end
   | _, _ => false
@@ -145,9 +143,9 @@ Definition chk_squery (ts : tstatus) (qy : squery) : bool :=
   | None, None => true
   | Some (_, v), Some (t', v') =>
       num_eqb v v' &&
-      match names, aget Z.eqb t' (ts_trials ts) with
-      | name :: _, Some s => num_eqb (per_trial_opt (summary_mode ms) name s) v
-      | _, _ => false
+      match names, summary_mode ms, aget Z.eqb t' (ts_trials ts) with
+      | name :: _, Some m, Some s => num_eqb (per_trial_opt m name s) v
+      | _, _, _ => false
       end
   | _, _ => false
   end.
@@ -479,9 +477,29 @@ def check_best_tuner(handed, metric, mode, best):
     opt = min(allv) if mode == "min" else max(allv)
     if v is not None and float(v) != opt:
         return "reported best %s of %s is %r, optimum over handed results is %r" % (mode, metric, v, opt)
+    if opt == (INF if mode == "min" else -INF):
+        return None  # every value is the worst infinity = the default of a trial without values: nothing to attain
     if opt not in per.get(t, []):
         return "reported trial %r never attained the optimum %r of %s (%s)" % (t, opt, metric, mode)
     return None
+
+
+def latch_hides_optimum(handed, metric, mode, trial):
+    """The statistics ignore every value of a metric that follows the first non-number of that metric (per trial).
+    True when, because of that, the trial named by Tuner.best_config() did not attain the optimum over ALL numeric
+    (non-NaN) values of the metric handed to the loop."""
+    per = {}
+    for t, r in handed:
+        v = plain(r.get(metric)) if metric in r else None
+        if isinstance(v, numbers.Number) and not isnan(v):
+            per.setdefault(t, []).append(float(v))
+    allv = [v for vs in per.values() for v in vs]
+    if not allv:
+        return False
+    opt = min(allv) if mode == "min" else max(allv)
+    if opt == (INF if mode == "min" else -INF):
+        return False
+    return opt not in per.get(trial, [])
 
 
 def check_best_exp(rows, metric, mode, cfg):
@@ -496,7 +514,9 @@ def check_best_exp(rows, metric, mode, cfg):
         return "best_config failed although the column has values"
     opt = min(good) if mode == "min" else max(good)
     v = cfg.get(metric)
-    if v is None or isnan(v) or float(v) != opt:
+    if v is None or isnan(v):
+        v = INF if mode == "min" else -INF  # pandas fills cells without a value with the worst infinity
+    if float(v) != opt:
         return "loaded experiment reports %s = %r, optimum over the rows is %r (%s)" % (metric, v, opt, mode)
     for r in rows:
         stripped = {k: x for k, x in r.items() if not k.startswith("st_")}
@@ -704,6 +724,10 @@ def property_checks(ctx, case, kind, deliveries, rows, wallclock, df, handed, ov
         why = check_best_tuner(handed, name, md, None if b is None else (b[0], None))
         if why:
             bad("best_config", why, mode=md)
+        elif b is not None and latch_hides_optimum(handed, name, md, b[0]):
+            bad("statistics", "Tuner.best_config() names trial %r for %s (%s), but a later numeric value of another "
+                "trial is better: values of a metric after its first non-numeric value are ignored by the statistics"
+                % (b[0], name, md), defect="numeric_values_after_non_numeric_ignored")
     for m, c in eqs:
         name, md = mode_of(names, mode, m)
         why = check_best_exp(table, name, md, c)
@@ -713,8 +737,9 @@ def property_checks(ctx, case, kind, deliveries, rows, wallclock, df, handed, ov
         name, md = mode_of(names, mode, 0)
         why = check_best_tuner(handed, name, md, b)
         if why:
+            extra = dict(defect="mode_list_read_as_max") if isinstance(mode, list) and md == "min" else {}
             bad("final_summary", "summary printed at the end of Tuner.run(): " + why, mode=md,
-                mode_is_list=isinstance(mode, list))
+                mode_is_list=isinstance(mode, list), **extra)
 
 
 # --------------------------------------------------------------------------
@@ -1197,7 +1222,7 @@ def run_cases(ctx, replay):
     elif replay:
         return
     else:
-        specs = [gen_run_spec(rng, i) for i in range(ctx.n(60, 800))]
+        specs = corpus_specs("run") + [gen_run_spec(rng, i) for i in range(ctx.n(60, 800))]
     terms, meta = [], []
     for i, spec in enumerate(specs):
         case = dict(kind="run", spec=spec)
@@ -1269,6 +1294,19 @@ def run(ctx, replay=None):
         os.makedirs(_TMP_ROOT, exist_ok=True)
 
 
+def corpus_specs(kind):
+    """minimised / formerly failing cases, run first"""
+    import glob
+    import json
+    out = []
+    for f in sorted(glob.glob(os.path.join(os.path.dirname(os.path.dirname(os.path.dirname(os.path.abspath(__file__)))),
+                                           "corpus", "C17", "*.json"))):
+        case = json.load(open(f)).get("case", {})
+        if case.get("kind") == kind:
+            out.append(case["spec"])
+    return out
+
+
 def seq_cases(ctx, replay):
     rng = ctx.rng
     if replay and replay.get("kind") == "seq":
@@ -1276,7 +1314,7 @@ def seq_cases(ctx, replay):
     elif replay:
         return
     else:
-        specs = [gen_seq_spec(rng) for _ in range(ctx.n(260, 4000))]
+        specs = corpus_specs("seq") + [gen_seq_spec(rng) for _ in range(ctx.n(260, 4000))]
     terms, meta = [], []
     for i, spec in enumerate(specs):
         workdir = os.path.join(_TMP_ROOT, "seq-%d" % i)
